@@ -400,8 +400,19 @@ def saveload_rule(ctx):
         out.append((load.lineno, "load opens the file with mode %r (binary read expected)" % (lm,)))
     # the model written is the function's model argument; the loaded value is returned
     margs = [a.arg for a in save.args.args]
-    if len(sc[1].args) < 2 or not (isinstance(sc[1].args[1], ast.Name) and sc[1].args[1].id in margs):
+    aliases = set(margs[1:2])
+    for n in ast.walk(save):  # m = model
+        if isinstance(n, ast.Assign) and isinstance(n.value, ast.Name) and n.value.id in aliases:
+            aliases.update(t.id for t in n.targets if isinstance(t, ast.Name))
+    arg = sc[1].args[1] if len(sc[1].args) >= 2 else None
+    if isinstance(arg, ast.Name) and arg.id in aliases:
+        pass
+    elif isinstance(arg, ast.Call) and (pm.resolve(TRAIN_MOD, arg.func) or "") in ("equinox.filter", "equinox.partition"):
+        out.append((save.lineno, "save serialises only a filtered part of the model (%s): the leaves filtered out (inference flags, counters, ...) are not written, so the loaded model need not reproduce the outputs" % ast.unparse(arg)[:60]))
+    elif arg is None or not any(isinstance(x, ast.Name) and x.id in aliases for x in ast.walk(arg)):
         out.append((save.lineno, "save does not serialise its model argument"))
+    else:
+        raise AnalysisError("save serialises %s: cannot tell whether this is the whole model" % ast.unparse(arg)[:60])
     returns = [n for n in ast.walk(load) if isinstance(n, ast.Return)]
     if not any(r.value is lc[1] for r in returns):
         # allow assignment then return
